@@ -445,7 +445,13 @@ class Body:
                     ops = rv['ops']
                     idx = p[1]
                     vname = rv['ak'].get('variant')
-                    if c.path and vname is not None and c.path[0][1] != vname:
+                    want = c.path[0][1] if c.path else None
+                    # `x?` : Try::branch is value-preserving for ORIG, so `Continue.0` of the branch result is the Some / Ok payload of x
+                    if want == 'Continue' and vname in ('Some', 'Ok'):
+                        want = vname
+                    elif want == 'Continue' and vname in ('None', 'Err'):
+                        continue
+                    if c.path and vname is not None and want != vname:
                         continue  # projecting a variant this aggregate does not have: infeasible
                     if idx < len(ops):
                         nxt |= self.orig_operand(self.facts.operand(ops[idx]), _seen, live)
